@@ -31,6 +31,13 @@ class Item(object):
         self.l = vsc.rand_list_t(vsc.bit_t(5), 4)
         self.u1 = vsc.rand_bit_t(16)
         self.u2 = vsc.rand_int_t(12)
+        # six fields in one rand set: more than the swizzler steers in one call
+        self.g0 = vsc.rand_bit_t(7)
+        self.g1 = vsc.rand_bit_t(7)
+        self.g2 = vsc.rand_bit_t(7)
+        self.g3 = vsc.rand_bit_t(7)
+        self.g4 = vsc.rand_bit_t(7)
+        self.g5 = vsc.rand_bit_t(7)
 
     @vsc.constraint
     def ab(self):
@@ -44,6 +51,7 @@ class Item(object):
         vsc.unique(self.l)
         with vsc.foreach(self.l, idx=True) as i:
             self.l[i] < 20
+        self.g0 + self.g1 + self.g2 + self.g3 + self.g4 + self.g5 < 500
 
 
 def noise():
@@ -86,7 +94,7 @@ for k in range(8):
             o.randomize(**kw)
     if k == 3:
         snap = o.get_randstate()
-    out.append([int(o.a), int(o.b), int(o.c), int(o.d), int(o.e), list(map(int, o.l)), int(o.u1), int(o.u2)])
+    out.append([int(o.a), int(o.b), int(o.c), int(o.d), int(o.e), list(map(int, o.l)), int(o.u1), int(o.u2)] + [int(getattr(o, 'g%d' % j)) for j in range(6)])
 # restore the snapshot taken after call 3 and replay calls 4..7; do it twice from the same RandState object
 rep = []
 for _ in range(2):
@@ -99,7 +107,7 @@ for _ in range(2):
                     it.b < 10
             else:
                 o.randomize()
-        r.append([int(o.a), int(o.b), int(o.c), int(o.d), int(o.e), list(map(int, o.l)), int(o.u1), int(o.u2)])
+        r.append([int(o.a), int(o.b), int(o.c), int(o.d), int(o.e), list(map(int, o.l)), int(o.u1), int(o.u2)] + [int(getattr(o, 'g%d' % j)) for j in range(6)])
     rep.append(r)
 # a state derived from (seed, string)
 q = Item()
